@@ -218,7 +218,8 @@ def write_ndjson(path, rows):
 
 def read_ndjson(path):
     rows = []
-    with open(path) as f:
+    # (what code under test produced may not even be UTF-8: a seeded change cut a string in the middle of a character)
+    with open(path, encoding="utf-8", errors="replace") as f:
         for line in f:
             line = line.strip()
             if line:
